@@ -30,6 +30,8 @@ def demo_cmd(path):
                 j += 1
                 cmd = cmd[:-1] + " " + lines[j]
             cmd = re.split(r";\s*echo\b", cmd)[0]
+            if "&&" not in cmd and j + 1 < len(lines) and re.match(r"(timeout|out2?/|\./|sh |bash )", lines[j + 1]):
+                cmd = cmd + " && " + re.split(r";\s*echo\b", lines[j + 1])[0]
             return "timeout -s KILL 600 sh -c '%s'" % cmd.replace("'", "'\\''")
     base = os.path.basename(path)[:-2]
     return ("gcc -I lib -DHAVE_CONFIG_H -DHAWK_HAVE_CFG_H -fshort-wchar %s/%s.c lib/.libs/libhawk.a -lm -ldl -lpthread -lquadmath -o %s/%s "
